@@ -4,7 +4,7 @@ from vlib import std, hbuild, coq, corr, recipes
 
 PID = "C30"
 META = {
-    "text": "Model UriModel.v transcribes AnyP::Uri::parse (CONNECT branch via parseHost/parsePort, urn: branch, the legacy authority/path split with its login, bracket, last-colon and digit-loop port rules, lower-casing, check_hostnames, trailing-dot / '..' / leading-dot rules, port range, uri_whitespace strip/allow/chop/deny), Uri::host() with its 255-byte truncation, authority(), absolute(), absolutePath() and UriScheme (FindProtocolType, image, defaultPort) over tables regenerated from the code (ctype maps, valid_hostname_chars, PathChars, scheme table, per-byte Encode maps, limits). Theorems (Properties_C30.v) for ALL configurations, methods and byte strings: an accepted URI has a host without upper-case letters and a port in 1..65535; the port is the scheme default or a decimal number written after a ':' of the input; for every RFC-shaped URI scheme://[userinfo@]reg-name[:port]path the parser returns exactly the lower-cased host, the written port (or the scheme default) and the path, and rejects every port text that is not a decimal number in 1..65535 (also after a bracketed literal, and for CONNECT targets); re-parsing the canonical form yields the same scheme, host, port and path whenever the parsed host is non-empty, un-truncated and free of ':' / leading '[' (or an IP literal under the stated Ip::Address contract) and the path needs no encoding, and the canonical form is then a fixed point. Refuted with witnesses confirmed on the real code (known findings): canonical re-parse for paths with '?' or '#' (F14), for hosts that the legacy parser accepts although they are not a valid authority (empty host, ':' inside an unbracketed host, host truncated at 255 bytes), and 'no empty labels' for the empty and the truncated host.",
+    "text": "Model UriModel.v transcribes AnyP::Uri::parse (CONNECT branch via parseHost/parsePort, urn: branch, the legacy authority/path split with its login, bracket, last-colon and digit-loop port rules, lower-casing, check_hostnames, trailing-dot / '..' / leading-dot rules, port range, uri_whitespace strip/allow/chop/deny), Uri::host() with its 255-byte truncation, authority(), absolute(), absolutePath() and UriScheme (FindProtocolType, image, defaultPort) over tables regenerated from the code (ctype maps, valid_hostname_chars, PathChars, scheme table, per-byte Encode maps, limits). Theorems (Properties_C30.v, 13, closed under the global context) for ALL configurations, methods and byte strings: an accepted URI has a host without upper-case letters and a port in 1..65535; a non-empty, un-truncated, non-IP host has no empty labels; for every RFC-shaped URI scheme://[userinfo@]reg-name:P rest (and scheme://[userinfo@][literal]:P rest) acceptance implies that P is a non-empty decimal string with value in 1..65535 and that this value is the port (so every non-numeric, empty, signed or out-of-range port text is rejected), and without a port the scheme default is used; re-parsing absolute() of a URI value with a settled reg-name / dotted-quad host and a path made of PathChars only yields the same scheme, host, port and path, and the canonical form is then a fixed point. Refuted with witnesses confirmed on the real code (known findings): 'no empty labels' for the empty host and for the host cut at 255 bytes; canonical re-parse for paths with '?' / '#' (F14), for hosts containing ':' that the legacy split accepts, and for the empty host. CONNECT targets, bracketed IPv6 literals in the canonical re-parse, urn: and the host/path halves of 'parse returns exactly the written components' are covered by the correspondence run and the independent oracle only.",
     "note": "Trusted: Coq kernel, extraction, gen/gen_uri.cc, gen/gen_bytemaps.cc, gen/gen_charsets.cc, harness/h_uri.cc, the glue in ml/run_uri.ml. Ip::Address::fromHost/isAnyAddr/toHostStr is a Section variable (ipq) with its contract stated in UriProofs.v (canonical texts are lower-case dotted quads or bracketed [0-9a-f:.]+ and are fixed points of the recognition); the harness supplies the real answers for every string the model asks about and the oracle re-checks the contract on those answers. append_domain and uri_whitespace=encode are not modelled. Function-static sets (schemeChars, nidChars, IPv6chars) are written as expressions over the regenerated base sets and covered by correspondence only. The hand-written model is validated against the code on the generated cases only.",
     "technique": "Coq proof (induction on byte strings, span/split lemmas, vm_compute sweeps over the regenerated 256-entry tables and over all 65536 port values, Section oracle for IP recognition) + extracted-model differential correspondence",
 }
@@ -416,6 +416,6 @@ def run(res, tier):
                 "combinations; a case is non-trivial when the URI was accepted")
     std.run_standard(res, PID, tier, area="uri", build_impl=impl, gen_cases=gen_cases, oracle=oracle,
                      corr_name="UriModel vs src/anyp/Uri.cc, src/anyp/UriScheme.cc, src/anyp/Host.cc",
-                     gens=["charsets", "bytemaps", "uri"], n_quick=20000, n_thorough=300000, seed_salt=30, mutate=mutate,
+                     gens=["charsets", "bytemaps", "uri"], n_quick=15000, n_thorough=300000, seed_salt=30, mutate=mutate,
                      kind_fn=kind, nontrivial_fn=lambda c, o: c.startswith("uri.rt") and o.startswith("ok"),
                      model_blind=lambda c: not c.startswith("uri.rt"))
